@@ -122,6 +122,7 @@ fn load_config(config_path: Option<&Path>, cli: &Cli) -> Result<Config> {
 
     // Validate semantic correctness after loading
     validate_config_semantics(&load_result.config)?;
+    super::context::validate_checkers(&load_result.config)?;
 
     // Print preset info if a preset was used
     if let Some(ref preset_name) = load_result.preset_used {
